@@ -26,6 +26,8 @@ class TLCResult:
         self.depth = 0
         self.violations = []      # list of dict(kind, name, trace)
         self.prints = []          # parsed PrintT values (tuples starting with a string tag)
+        self.unparsed_prints = 0
+        self.unparsed_text = ""
         self.dump = None
         self.wall = 0.0
         self.timed_out = False
@@ -187,13 +189,28 @@ def run(wd, mc_name, workers=16, timeout=600, dump=False, cont=False, coverage=F
     if m:
         res.depth = int(m.group(1))
     res.violations = _parse_traces(res.out)
+    # PrintT values: TLC wraps long values over several lines, so collect from a line starting with <<" until brackets balance
+    buf = None
+    depth = 0
     for ln in res.out.split("\n"):
         s = ln.strip()
-        if s.startswith('<<"') and s.endswith(">>"):
+        if buf is None:
+            # a PrintT value starts in column 0 with an upper-case tag (state dumps of error traces are indented / start with /\)
+            if not re.match(r'^<<\s?"[A-Z]+"', ln):
+                continue
+            buf = []
+            depth = 0
+        buf.append(s)
+        depth += s.count("<<") + s.count("[") + s.count("(") + s.count("{") - s.count(">>") - s.count("]") - s.count(")") - s.count("}")
+        if depth <= 0:
             try:
-                res.prints.append(tlaval.parse(s))
+                res.prints.append(tlaval.parse(" ".join(buf)))
             except Exception:
-                pass
+                res.unparsed_prints += 1
+                res.unparsed_text = " ".join(buf)[:600]
+            buf = None
+    if buf is not None:
+        res.unparsed_prints += 1
     return res
 
 
